@@ -14,7 +14,7 @@ VARIABLE l            \* index of the next line to consume
 ToSet(s) == {s[i] : i \in DOMAIN s}
 Matches(o) == /\ st = o.st /\ ptr = o.ptr /\ nxt = o.nxt /\ head = o.head /\ cur = o.cur
               /\ open = ToSet(o.open) /\ mu = o.mu
-              /\ \A c \in Counters : cell[1][c] = o.cell1[c] /\ cell[2][c] = o.cell2[c]
+              /\ \A c \in Counters : cell[1][c] = o.cell1[c] /\ cell[2][c] = o.cell2[c] /\ cell[3][c] = o.cell3[c]
               /\ begun = o.begun
               /\ faults = ToSet(o.faulted)
 
